@@ -55,6 +55,13 @@ func (rm *RegistrationManager) VerifUsed(reg *DecoyRegistration) (used, tracked 
 	}
 	// independent of how the map is keyed: find the record by what it records
 	id, ph := tr.GetIdentifier(reg), reg.PhantomIp.String()
+	// the usual key first (constant time: long runs track hundreds of thousands of registrations) …
+	if t, ok := r.decoysTimeouts[ph+"|"+id]; ok {
+		if d, i := verifTimeoutOf(t, ph+"|"+id); d == ph && i == id {
+			return t.status == regStatusUsed, true
+		}
+	}
+	// … then independent of how the map is keyed: find the record by what it records
 	for key, t := range r.decoysTimeouts {
 		if d, i := verifTimeoutOf(t, key); d == ph && i == id {
 			return t.status == regStatusUsed, true
